@@ -41,7 +41,15 @@ def affine_atoms(term):
 
 
 def run(chk, tier):
-    crate = Crate("rand_jitter")
+    from ..report import Suffixed
+    run_config(chk, tier, None)
+    # the same with the optional features on (std + log): the logging macros expand to code there
+    run_config(Suffixed(chk, " [std+log]"), tier, "jitter-std")
+
+
+def run_config(chk, tier, config):
+    crate = Crate("rand_jitter", config) if config else Crate("rand_jitter")
+    crate.neutral_crates = {"log"}  # the log facade gets formatted copies only (that it cannot reach the generator is C19's)
     chk.config(crate.config)
     g = Gen(crate, "JitterRng")
     iD = find_field(g.adt, "data", "u64")
